@@ -192,7 +192,12 @@ def _b_body(i):
     full = rm.data_lines(rm.parse(kp.dumps(doc, **kw)))
     parts = []
     for m in range(1, M + 1):
-        parts += rm.data_lines(rm.parse(kp.dumps(doc, from_measure=m, to_measure=m, **kw)))
+        one = kp.dumps(doc, from_measure=m, to_measure=m, **kw)
+        parts += rm.data_lines(rm.parse(one))
+        # the same pair asked again and again from the same document gives the same text every time
+        for n in (2, 3, 4):
+            rep = kp.dumps(doc, from_measure=m, to_measure=m, **kw)
+            check(rep == one, f'measure {m} exported for the {n}th time from the same document: {rep!r}, the first time {one!r}')
     check(sorted(map(tuple, parts)) == sorted(map(tuple, full)),
           f'single-measure exports give data lines {parts}, the full export has {full}')
     check(parts == full, f'single-measure exports are not in score order: {parts} vs {full}')
